@@ -9,6 +9,7 @@ sys.addaudithook inside a child process that exits afterwards.
 
 import builtins
 import errno as _errno
+import fnmatch
 import json
 import os
 import sys
@@ -88,7 +89,19 @@ class Shim:
                                                      'rename'):
             raise OSError(self.persist_err, os.strerror(self.persist_err),
                           rel)
-        if f is None or self.fired is not None or f.get('at') != idx:
+        if f is None or self.fired is not None:
+            return
+        if 'match' in f:
+            # symbolic coordinate: the n-th event of a kind on a path glob
+            # (robust against unrelated changes of the event stream; used by
+            # hand-written pinned replays)
+            mk, mglob = f['match']
+            if kind != mk or not fnmatch.fnmatch(rel, mglob):
+                return
+            self.match_count = getattr(self, 'match_count', 0) + 1
+            if self.match_count != f.get('nth', 1):
+                return
+        elif f.get('at') != idx:
             return
         if f['kind'] == 'kill':
             self.fired = {'kind': 'kill', 'at': idx, 'event': [kind, rel]}
